@@ -476,3 +476,27 @@ def ring_order_step(ctx, rep):
     res = driver.explore_parallel(path, 60, nworkers=4)
     _lemma(rep, "lemma ring placement: ring bonds come first in formation order, candidates on bonded pairs only raise the order", res,
            {"graph": "chain of 4 atoms + one branch atom", "candidates": "1-3 pairs chosen by the solver from %r" % (PAIRS,)})
+
+
+def crosshair_state_lemmas(ctx, rep, timeout=20):
+    """E2 cross-engine: CrossHair on the same three state functions over unbounded ints"""
+    import os
+    from . import xhair
+    src = os.path.join(os.path.dirname(os.path.abspath(__file__)), "xh", "c01_contracts.py")
+    try:
+        res = xhair.run_contracts(src, per_condition_timeout=timeout)
+    except Exception as ex:  # noqa
+        rep.parts.append({"name": "E2 CrossHair state functions", "lemma": True, "discharged": False, "complete": True,
+                          "status": "inconclusive", "detail": "could not run: %r" % (ex,)})
+        return
+    for fn, r in sorted(res.items()):
+        rep.obligations += 1
+        okk = r["status"] == "confirmed"
+        if okk:
+            rep.discharged += 1
+        rep.parts.append({"name": "E2 CrossHair %s (unbounded ints)" % fn, "lemma": True, "discharged": okk, "status": r["status"],
+                          "wall_s": r.get("wall_s"), "detail": r["message"][-160:], "complete": True})
+        if r["status"] == "refuted" and r.get("args"):
+            a = r["args"]
+            fname = {"check_atom_state": "next_atom_state", "check_branch_state": "next_branch_state", "check_ring_state": "next_ring_state"}[fn]
+            rep.cases.append({"prop": rep.pid, "kind": "state_fn", "fn": fname, "args": [int(x) for x in a]})
